@@ -361,7 +361,7 @@ func contractsFor(c *Ctx, prop string) *bounds.Hooks {
 		return mergeHooks(twoFragHooks(c, c.fragLoopsSeen), lenPrefixHooks(c, c.lenPairsSeen))
 	case "C13":
 		c.lenPairsSeen = map[ssa.Instruction]bool{}
-		return lenPrefixHooks(c, c.lenPairsSeen)
+		return mergeHooks(lenPrefixHooks(c, c.lenPairsSeen), wClosedHooks(c, &c.wClosedSeen))
 	}
 	return nil
 }
